@@ -1,4 +1,5 @@
 import functools
+import threading
 from contextlib import contextmanager
 from contextvars import ContextVar
 
@@ -394,23 +395,33 @@ def inplace(fn):
 tooled.inplace = inplace
 
 
+# The instrumentation state of a function (its stack of capture sets and the
+# code object currently installed) is shared by all threads: probes that are
+# activated or deactivated concurrently must update it one at a time.
+_tooling_lock = threading.RLock()
+
+
 def _tooler(fn, captures):
     if not hasattr(fn, "__code__"):
         raise TypeError(f"{fn} cannot be tooled")
 
-    if hasattr(fn, "__ptera_stack__"):
-        st = fn.__ptera_stack__
-    else:
-        st = fn.__ptera_stack__ = SyncedStackedTransforms(fn, proceed=proceed)
+    with _tooling_lock:
+        if hasattr(fn, "__ptera_stack__"):
+            st = fn.__ptera_stack__
+        else:
+            st = fn.__ptera_stack__ = SyncedStackedTransforms(
+                fn, proceed=proceed
+            )
 
-    st.push(captures)
+        st.push(captures)
     return fn
 
 
 def _untooler(fn, captures):
-    if hasattr(fn, "__ptera_stack__"):
-        st = fn.__ptera_stack__
-        st.pop(captures)
+    with _tooling_lock:
+        if hasattr(fn, "__ptera_stack__"):
+            st = fn.__ptera_stack__
+            st.pop(captures)
     return fn
 
 
